@@ -175,7 +175,9 @@ int main (int argc, char** argv)
     vf::R ().parse (argc, argv);
     c10::run_group ();
     c10::run_unit ();
+    c10::run_rounding ();
     c10::run_setrotation ();
     c10::run_slerp ();
+    c10::run_repeated_keys ();
     return vf::R ().finish ();
 }
